@@ -33,8 +33,9 @@ def main():
     ck = Check('C07', 'model_checking')
     quick = ck.tier == 'quick'
     ck.bounds = {'single predicates': 'needle <= %d bytes, haystack <= %d bytes, all byte values' % ((3, 4) if quick else (4, 6)),
-                 'automaton': '%s needles of 0..2 bytes, haystack <= %d bytes, ASCII, member kinds symbolic, 3 occurrence orders' % (
-                     '2' if quick else '2..3', 3 if quick else 4),
+                 'automaton': '%s needles of 0..2 bytes, haystack <= %d bytes, ASCII, member kinds symbolic, 3 occurrence orders; '
+                              'two needles also over well-formed UTF-8 haystacks with characters of up to %d bytes' % (
+                     '2' if quick else '2..3', 3 if quick else 4, 2 if quick else 3),
                  'pattern syntax': 'strings <= %d bytes' % (5 if quick else 7)}
     ck.assumptions = ['aho-corasick: find_overlapping_iter yields exactly the occurrences (validated against the crate on enumerated inputs in this run)',
                       'regex engine trusted by contract; to_lowercase exact on ASCII (non-ASCII outside the claim)',
@@ -50,9 +51,14 @@ def main():
             for ins in (False, True):
                 for order in ('end', 'pattern', 'rev'):
                     units.append(('aho', lens, ins, order))
+    for lens in itertools.product(range(0, 3), repeat=2):
+        for ins in (False, True):
+            units.append(('aho', lens, ins, 'end', 'utf8'))
     units.append(('aho-contract',))
     units.append(('syntax', 5 if quick else 7))
-    for l in ([['a', 'b'], ['a*', '*b', '*c*'], ['a', 'ia', '?a'], ['ia*', 'i*b'], ['*a*', '', 'b'], ['ab', '*b', 'a*'], ['?a', '?b', 'c'], ['i?a', 'i?b'], ['i?ab', 'i?b', 'ic'], ['ia', 'ib', 'c']] +
+    for l in ([['a', 'b'], ['a*', '*b', '*c*'], ['a', 'ia', '?a'], ['ia*', 'i*b'], ['*a*', '', 'b'], ['ab', '*b', 'a*'], ['?a', '?b', 'c'], ['i?a', 'i?b'], ['i?ab', 'i?b', 'ic'], ['ia', 'ib', 'c'],
+               # one text under several relations / case flags
+               ['a*', '*a'], ['ab*', '*ab*', 'ab'], ['ia*', 'i*a', 'a']] +
               ([] if quick else [['a', 'b', 'c', 'd'], ['*ab*', '*ba*', 'ab'], ['iab', 'Ab', '*B'], ['a*', 'b*', 'ic*', '?d']])):
         units.append(('batch', l))
     ck.run_units(units, run_unit)
@@ -86,12 +92,18 @@ def run_unit(ck, unit):
             ck.inconclusive.append('search %s: vacuity' % k)
         return
     if kind == 'aho':
-        _, lens, ins, order = unit
+        _, lens, ins, order = unit[:4]
+        utf8 = len(unit) > 4
         uni = engine.Universe()
         uni.aho_order = order
         ex = ck.new_engine(prog, uni=uni, summarise=())
         hcap = 3 if quick else 4
-        h = S.fresh('hay', hcap, uni.axioms, ascii_only=True)
+        if utf8:
+            # haystacks with multi-byte characters: byte offsets and character counts differ
+            from mirsym.models_chars import fresh_utf8
+            h = fresh_utf8('hay', hcap, uni, max_width=2 if quick else 3)
+        else:
+            h = S.fresh('hay', hcap, uni.axioms, ascii_only=True)
         needles = []
         for i, L in enumerate(lens):
             nb = S.fresh('n%d' % i, L, uni.axioms, ascii_only=True)
@@ -109,7 +121,7 @@ def run_unit(ck, unit):
         aho = AhoV(needles, ins)
         srch = imp.enum('Search', 'AhoCorasick', [BoxV([aho]), mts, ins])
         rels = [z3.Or(*[z3.And(kd[i] == j, z3bool(rel(KINDS[j], needles[i], h, ins))) for j in range(4)]) for i in range(len(lens))]
-        label = 'aho lens=%s %s order=%s' % (lens, 'i' if ins else 's', order)
+        label = 'aho%s lens=%s %s order=%s' % ('-utf8' if utf8 else '', lens, 'i' if ins else 's', order)
         # search(): any member
         res = ex.explore('search', [Ref(Cont([srch]), 0), StrV(h)])
         for r in res:
